@@ -121,3 +121,22 @@ pub(crate) fn push_distinct_loops(p: &mut Program, n: usize) {
         k += 1;
     }
 }
+/// same stored lines (numbers and tokens)?
+pub(crate) fn same_lines(a: &Program, b: &Program) -> bool {
+    let la = a.numbered_lines.list_tokens();
+    let lb = b.numbered_lines.list_tokens();
+    if la.len() != lb.len() {
+        return false;
+    }
+    let mut i = 0;
+    let mut same = true;
+    while i < la.len() {
+        if la[i].0 != lb[i].0 || la[i].1 != lb[i].1 {
+            same = false;
+        }
+        i += 1;
+    }
+    core::mem::forget(la);
+    core::mem::forget(lb);
+    same
+}
